@@ -944,8 +944,18 @@ class Memory(Expression):
     @contextmanager
     def calculate(self, dst, long, force=False):
         if self.has_endian():
-            with self.without_endian().switch_endian(self.fmt) \
-                 .calculate(dst, long, force) as (dst, long):
+            # load the raw bytes unsigned and swap them; the swap zero-extends,
+            # so the sign of a signed format is restored afterwards
+            raw = Memory(self.ebpf, self.fmt[-1].upper(), self.address)
+            with raw.switch_endian(self.fmt) \
+                    .calculate(dst, long, force) as (dst, raw_long):
+                if long is None:
+                    long = raw_long
+                if self.signed:
+                    shift = (64 if long else 32) - calcsize(self.fmt) * 8
+                    if shift > 0:
+                        regs = self.ebpf.sr if long else self.ebpf.sw
+                        regs[dst] = (regs[dst] << shift) >> shift
                 yield dst, long
                 return
         with ExitStack() as exitStack:
